@@ -5,11 +5,11 @@ go 1.25.0
 require (
 	github.com/andybalholm/brotli v1.2.2
 	github.com/klauspost/compress v1.19.2
+	github.com/valyala/bytebufferpool v1.0.0
 	github.com/valyala/fasthttp v0.0.0
 )
 
 require (
-	github.com/valyala/bytebufferpool v1.0.0 // indirect
 	golang.org/x/net v0.58.0 // indirect
 	golang.org/x/sys v0.47.0 // indirect
 	golang.org/x/text v0.41.0 // indirect
